@@ -11,9 +11,10 @@ EXPLANATION = ("C12: keyword-binding analysis of the Remoter/RemoterTls construc
                "serviceAxes (the tymeout parameter must be bound to a value derived from the server's tymeout, not "
                "swallowed by Mixin.__init__(**kwa)); Remoter stores it and builds its Tymer from it; the idle test "
                "`ix.tymeout > 0 and ix.tymer.expired` guards closeConnection in http.Server and BareServer; every "
-               "receive/send of Remoter and its overrides refreshes the tymer on the data-moved path; tymeout is "
+               "receive/send of Remoter and its overrides refreshes the tymer on the data-moved path; refresh() re-arms the "
+               "tymer from the current tyme (deadline = now + tymeout, not previous deadline + tymeout); tymeout is "
                "zeroed only under `persisted`.")
-ASSUMPTIONS = ["whether restart() rather than now+tymeout closes promptly is not decided"]
+ASSUMPTIONS = ["the exact cycle in which an expired connection is closed is not decided"]
 S = tcp.SM
 H = "hio.core.http.serving"
 
@@ -44,7 +45,27 @@ def check(run):
                 if "time" in a or "tyme" in a:
                     run.ob("C12.R1", "%s:%s(...):keyword-%s-not-swallowed" % (f.fq, k.name, a), False, run.site(f, call),
                            "keyword `%s` is accepted by no named parameter along %s and is silently dropped" % (a, " -> ".join(chain)))
-    run.floor("C12.R1", 2)
+    # the http servers hand the configured idle tymeout (their own constructor parameter) to every servant they may build
+    tsrv = ix.cls(S, "Server")
+    for cname in ("Server", "BareServer"):
+        f = ix.method(ix.cls(H, cname), "__init__")
+        params = set(f.params()[0]) | set(f.params()[1])
+        sites = []
+        for call in [c for c in walk_local(f.node) if isinstance(c, ast.Call)]:
+            k = ix.callee_class(f, call)
+            if k is None or tsrv not in k.mro:
+                continue
+            tv = next((kw.value for kw in call.keywords if kw.arg == "tymeout"), None)
+            ok = isinstance(tv, ast.Name) and tv.id in params and ("tyme" in tv.id or "time" in tv.id)
+            sites.append((k.name, unparse(tv) if tv is not None else None))
+            run.sites += 1
+            run.ob("C12.R1", "%s:%s(...):servant-gets-configured-tymeout" % (f.fq, k.name), ok, run.site(f, call),
+                   "" if ok else "the %s servant is built with tymeout=%s instead of the tymeout this server was configured with: connections "
+                   "of that kind time out after a different (or the default) idle period" % (k.name, unparse(tv) if tv is not None else "<nothing>"))
+        vals = {v for _, v in sites}
+        ok = len(sites) >= 2 and len(vals) == 1
+        run.ob("C12.R1", "%s:servant-branches-agree" % f.fq, ok, run.site(f),
+               "" if ok else "the plain and the TLS servant are configured with different tymeouts: %s" % sites)
     # Remoter.__init__ stores and uses it
     rinit = ix.func(S, "Remoter.__init__")
     stores = {dotted(t): a.value for a in walk_local(rinit.node) if isinstance(a, ast.Assign) for t in a.targets}
@@ -56,6 +77,8 @@ def check(run):
     ok = isinstance(ty, ast.Call) and any(kw.arg == "duration" and dotted(kw.value) == "self.tymeout" for kw in ty.keywords)
     run.ob("C12.R1", "%s:tymer-duration-is-tymeout" % rinit.fq, ok, run.site(rinit),
            "" if ok else "Remoter.tymer is not built with duration=self.tymeout")
+
+    run.floor("C12.R1", 10)
 
     # R2 idle test guards closeConnection
     for cname in ("Server", "BareServer"):
@@ -115,8 +138,51 @@ def check(run):
             run.ob("C12.R3", "%s:%s.%s:refreshes-on-traffic" % (S, cname, meth), ok, run.site(f),
                    "" if ok else "%s.%s moves data without refreshing the idle tymer: a busy connection is timed out as idle%s" % (cname, meth, why))
     rf = ix.method(ix.cls(S, "Remoter"), "refresh")
-    ok = any(isinstance(c, ast.Call) and method_call(c) == ("self.tymer", "restart") for c in walk_local(rf.node))
-    run.ob("C12.R3", "%s:Remoter.refresh:restarts-tymer" % S, ok, run.site(rf), "" if ok else "Remoter.refresh does not restart the tymer")
+    # the idle deadline after a refresh is NOW + tymeout.  Tymer.start() without a start argument begins the period at the current
+    # tyme; Tymer.restart() begins it at the previous stop (lossless chaining, C08), which for an idle timeout moves the deadline one
+    # whole tymeout further for every refresh (k receives in one cycle -> deadline k*tymeout ahead).
+    from .. import timers
+    tfacts = timers.timer_facts(run, ix.cls("hio.base.tyming", "Tymer"))
+    start_is_now = tfacts["start.start=given-or-now"][0]
+    restart_chains = tfacts["restart.start=old-stop"][0]
+    calls = [c for c in walk_local(rf.node) if isinstance(c, ast.Call) and (method_call(c) or ("", ""))[0] == "self.tymer"
+             and method_call(c)[1] in ("start", "restart")]
+
+    def unwound_only(c):
+        """the call is reachable only when the tymer has no tymth (nothing to read the current tyme from)"""
+        p, cur = parent(c), c
+        while p is not None and p is not rf.node:
+            if isinstance(p, ast.If):
+                t, neg = p.test, False
+                while isinstance(t, ast.UnaryOp) and isinstance(t.op, ast.Not):
+                    t, neg = t.operand, not neg
+                if (dotted(t) or "").endswith(".tymth"):
+                    in_body = any(in_subtree(c, b) for b in p.body)
+                    if in_body == neg:      # else-branch of `if x.tymth`, or body of `if not x.tymth`
+                        return True
+            cur, p = p, parent(p)
+        return False
+
+    ok, why = False, "Remoter.refresh does not re-arm self.tymer from the current tyme"
+    for c in calls:
+        m = method_call(c)[1]
+        given_start = next((k.value for k in c.keywords if k.arg == "start"), c.args[1] if len(c.args) > 1 else None)
+        if m == "start" and given_start is None and start_is_now and not unwound_only(c):
+            ok = True
+    for c in calls:
+        m = method_call(c)[1]
+        given_start = next((k.value for k in c.keywords if k.arg == "start"), c.args[1] if len(c.args) > 1 else None)
+        if unwound_only(c):
+            continue
+        if m == "restart" and restart_chains:
+            ok, why = False, ("Remoter.refresh re-arms the idle tymer with `%s`: Tymer.restart begins the next period at the previous stop, so each "
+                              "refresh moves the idle deadline one whole tymeout beyond the previous deadline instead of to now + tymeout; after k "
+                              "receives/sends the connection may stay idle for k tymeouts before it is closed" % unparse(c))
+            break
+        if m == "start" and given_start is not None:
+            ok, why = False, "Remoter.refresh re-arms the idle tymer with `%s`, which does not start the period at the current tyme" % unparse(c)
+            break
+    run.ob("C12.R3", "%s:Remoter.refresh:deadline-is-now-plus-tymeout" % S, ok, run.site(rf, calls[0]) if calls else run.site(rf), "" if ok else why)
     run.floor("C12.R3", 5)
 
     # R4 who zeroes tymeout
@@ -148,6 +214,8 @@ MUTANTS = [
     Mutant("reintroduce-tls-timeout-keyword", S, "ServerTls.serviceAxes", "tymeout=self.tymeout,", "timeout=self.tymeout,", {"C12.R1"}),
     Mutant("remoter-tymer-default-duration", S, "Remoter.__init__", "tyming.Tymer(tymth=self.tymth, duration=self.tymeout)", "tyming.Tymer(tymth=self.tymth, duration=self.Tymeout)", {"C12.R1"}),
     Mutant("remoter-receive-no-refresh", S, "Remoter.receive", "            if self.refreshable:\n                self.refresh()\n", "", {"C12.R3"}, canary=True),
+    Mutant("https-servant-default-tymeout", H, "Server.__init__", "                                    wl=wl,\n                                    tymeout=tymeout,", "                                    wl=wl,\n                                    tymeout=self.Tymeout,", {"C12.R1"}),
+    Mutant("reintroduce-refresh-chains-from-old-deadline", S, "Remoter.refresh", "            self.tymer.start()\n", "            self.tymer.restart()\n", {"C12.R3"}, canary=True),
     Mutant("reintroduce-tls-send-no-refresh", S, "RemoterTls.send", "            if self.refreshable:\n                self.refresh()\n", "", {"C12.R3"}),
     Mutant("idle-test-without-expired", H, "Server.serviceConnects", "if ix.tymeout > 0.0 and ix.tymer.expired:", "if ix.tymeout > 0.0 or ix.tymer.expired:", {"C12.R2"}, canary=True),
     Mutant("bare-idle-test-dropped", H, "BareServer.serviceConnects", "            if ix.tymeout > 0.0 and ix.tymer.expired:\n                self.closeConnection(ca)", "            pass", {"C12.R2"}),
